@@ -12,6 +12,10 @@ JAR = '/opt/veriftools/tla/tla2tools.jar:/opt/veriftools/tla/CommunityModules-de
 GOENV = dict(GOFLAGS='-mod=mod', GOPROXY='off', GOSUMDB='off', GOTOOLCHAIN='local')
 
 
+# the repository under test; VERIF_REPO is a development aid for background regression runs on a snapshot
+REPO = os.environ.get('VERIF_REPO', '/repo')
+
+
 class ToolTrouble(Exception):
     pass
 
@@ -139,14 +143,24 @@ class Run:
         e = dict(os.environ)
         e.update(GOENV)
         hdir = os.path.join(ROOT, 'harness')
-        try:
-            shutil.copy('/repo/go.sum', os.path.join(hdir, 'go.sum'))
-        except Exception:
-            pass
+        modflag = []
+        if REPO == '/repo':
+            try:
+                shutil.copy('/repo/go.sum', os.path.join(hdir, 'go.sum'))
+            except Exception:
+                pass
+        else:
+            # development aid (VERIF_REPO): build against another copy of the repository through an alternative go.mod
+            mod = open(os.path.join(hdir, 'go.mod')).read().replace('=> /repo', '=> ' + REPO)
+            mf = os.path.join(self.dir, 'hcv.mod')
+            with open(mf, 'w') as f:
+                f.write(mod)
+            shutil.copy(os.path.join(REPO, 'go.sum'), os.path.join(self.dir, 'hcv.sum'))
+            modflag = ['-modfile=' + mf]
         g = subprocess.run([sys.executable, os.path.join(ROOT, 'bin', 'gencatalog.py')], stdout=subprocess.PIPE, stderr=subprocess.STDOUT)
         if g.returncode != 0:
             raise ToolTrouble('catalog generation failed: ' + g.stdout.decode(errors='replace')[-1500:])
-        cmd = ['go', 'build', '-tags', 'verif'] + (['-race'] if race else []) + ['-o', exe, './cmd/hcv']
+        cmd = ['go', 'build', '-tags', 'verif'] + modflag + (['-race'] if race else []) + ['-o', exe, './cmd/hcv']
         t_start = time.time()
         p = subprocess.run(cmd, cwd=hdir, env=e, stdout=subprocess.PIPE, stderr=subprocess.STDOUT, timeout=900)
         if p.returncode != 0:
